@@ -115,6 +115,54 @@ func metricsProgs(byPath map[string]*packages.Package, out *Out) {
 	}
 }
 
+// recordCallers: every call site (outside the metrics package and outside tests) of a Record* function that records a
+// query size, with whether the size argument is syntactically a length (len(..), hence >= 0: hypothesis of min_exact)
+func recordCallers(pkgs []*packages.Package, out *Out) {
+	for _, p := range pkgs {
+		if !isLib(p.PkgPath) && !strings.HasPrefix(p.PkgPath, mod+"/cmd/") {
+			continue
+		}
+		for _, f := range p.Syntax {
+			fname := p.Fset.Position(f.Pos()).Filename
+			if strings.HasSuffix(fname, "_test.go") {
+				continue
+			}
+			ast.Inspect(f, func(n ast.Node) bool {
+				call, ok := n.(*ast.CallExpr)
+				if !ok {
+					return true
+				}
+				sel, ok := call.Fun.(*ast.SelectorExpr)
+				if !ok {
+					return true
+				}
+				fn, _ := p.TypesInfo.Uses[sel.Sel].(*types.Func)
+				if fn == nil || fn.Pkg() == nil || fn.Pkg().Path() != mod+"/pkg/metrics" || fn.Name() != "RecordTokenization" || len(call.Args) < 2 {
+					return true
+				}
+				pos := p.Fset.Position(call.Pos())
+				isLen := false
+				if c2, ok := ast.Unparen(call.Args[1]).(*ast.CallExpr); ok {
+					if id, ok := c2.Fun.(*ast.Ident); ok {
+						if b, ok := p.TypesInfo.Uses[id].(*types.Builtin); ok && b.Name() == "len" {
+							isLen = true
+						}
+					}
+				}
+				if tv, ok := p.TypesInfo.Types[call.Args[1]]; ok && tv.Value != nil && tv.Value.Kind() == constant.Int && constant.Sign(tv.Value) >= 0 {
+					isLen = true
+				}
+				out.MetricsCallers = append(out.MetricsCallers, J{"pos": fmt.Sprintf("%s:%d", shortFile(pos.Filename), pos.Line),
+					"size_arg": types.ExprString(call.Args[1]), "nonneg": isLen})
+				return true
+			})
+		}
+	}
+	sort.Slice(out.MetricsCallers, func(i, j int) bool {
+		return out.MetricsCallers[i]["pos"].(string) < out.MetricsCallers[j]["pos"].(string)
+	})
+}
+
 // publicNames: field of the metrics struct -> field of the public snapshot it is reported in, read off the
 // snapshot functions (GetStats / GetMetrics): `v := atomic.LoadInt64(&globalMetrics.F)` ... `Stats{K: v}`,
 // `Snapshot{K: atomic.LoadInt64(&globalMetrics.F)}`, `Snapshot{K: globalMetrics.F}`, and a `range globalMetrics.F`
